@@ -37,13 +37,13 @@ Step ==
             /\ ns' = ns \cup {<<Event.prefix, Event.exp>>}
             /\ UNCHANGED ids
        [] Event.k = "ctx" ->
-            /\ \A i \in 1..Len(Event.pairs) : NsOk(Event.pairs[i][1], Event.pairs[i][2])
+            /\ (\A i \in 1..Len(Event.pairs) : NsOk(Event.pairs[i][1], Event.pairs[i][2])) = TRUE   \* '= TRUE': evaluated as a value, not unfolded as an action
             /\ Cardinality({ Event.pairs[i][1] : i \in 1..Len(Event.pairs) }) = Len(Event.pairs)
             /\ Cardinality({ Event.pairs[i][2] : i \in 1..Len(Event.pairs) }) = Len(Event.pairs)
             /\ ns' = ns \cup { <<Event.pairs[i][1], Event.pairs[i][2]>> : i \in 1..Len(Event.pairs) }
             /\ UNCHANGED ids
        [] Event.k = "ctxall" ->  \* a snapshot taken while nothing else runs: consistent AND complete
-            /\ \A i \in 1..Len(Event.pairs) : NsOk(Event.pairs[i][1], Event.pairs[i][2])
+            /\ (\A i \in 1..Len(Event.pairs) : NsOk(Event.pairs[i][1], Event.pairs[i][2])) = TRUE   \* '= TRUE': evaluated as a value, not unfolded as an action
             /\ Cardinality({ Event.pairs[i][1] : i \in 1..Len(Event.pairs) }) = Len(Event.pairs)
             /\ Cardinality({ Event.pairs[i][2] : i \in 1..Len(Event.pairs) }) = Len(Event.pairs)
             /\ ns \subseteq { <<Event.pairs[i][1], Event.pairs[i][2]>> : i \in 1..Len(Event.pairs) }
